@@ -99,7 +99,13 @@ def oracle(run: runner.Run, oc: Outcome) -> None:
             if seq >= c.seq0:
                 break
             if v < r and c.t0 < t_ack + ct - EPS:
-                oc.add('C07/stale-view', 'before-timeout',
+                # Did a later sub-request of the same patching (status subresource) find the object gone?
+                # Then patch_obj() reports "gone" and the version of the body sub-request that did land is dropped.
+                vanished = any(e[2] == 'rsp' and e[4] == 404 and seq < e[0] < c.seq0
+                               and (rq := by_rid.get(e[3])) is not None and rq.method == 'PATCH'
+                               and rq.session.actor == actor and rq.attrs.get('name') == c.name
+                               for e in run.sim.trace)
+                oc.add('C07/stale-view', 'after-object-vanished-mid-patch' if vanished else 'before-timeout',
                        f"handler {c.hid} ran at t={c.t0:.4f} on view rv={v} of {c.name} although the operator's own "
                        f"PATCH had been acknowledged with rv={r} at t={t_ack:.4f}, only {c.t0 - t_ack:.3f}s "
                        f"earlier (consistency_timeout={ct})", name=c.name, hid=c.hid)
